@@ -28,6 +28,16 @@ PROPS = {
         "not_decided": ["every other operation-validation rule (field merging, value literals, fragments, directives, subscriptions, arguments): differential against graphql-js, no oracle inside a contract",
                         "that validate_variable_usage is called for every variable usage (value.rs / argument.rs walk the document through iterators)"],
     },
+    "C18": {
+        "level": "proof",
+        "verus": ["schema_lookup"],
+        "explanation": "KERNEL ONLY: Schema::type_field, the lookup through which every field of an executable document gets the schema's definition of that field on its parent type. Verus proves for every schema, "
+                       "type name and field name: the explicit field of an object / interface type if there is one; otherwise __typename on object, interface and union types only; otherwise __schema / __type on the "
+                       "query root type only; otherwise Err(NoSuchType) iff the type is undefined, Err(NoSuchField(type name, type definition)) else. The body is re-extracted from /repo on every run.",
+        "assumptions": ["IndexMap::get / get_key_value find the entry keyed by the text; MetaFieldDefinitions::get() returns the three implicit definitions; &str values with equal characters are equal (axiom)"],
+        "not_decided": ["everything else of C18: that Field::new / extend_from_ast call type_field with the right parent type and type selection sets by the field's inner type / the type condition, "
+                        "the validity guarantees (spreads acyclic, variables defined, leaf / composite sub-selections), the root_fields / all_fields iterators"],
+    },
     "C26": {
         "level": "proof",
         "verus": ["execution"],
